@@ -138,6 +138,13 @@ def hyp_case(draw, max_len):
             s[draw(st.integers(0, n - 1))] = draw(st.sampled_from(ref.NEUTRAL))
         return {"seq": "".join(s), "warm": draw(gens.warmups())}
     warm = draw(gens.warmups())
+    if draw(st.integers(0, 5)) == 0:
+        # a segregated sequence: charge blocks with the neutrals split between start, middle and end
+        n = draw(st.integers(5, 40 if warm else 70))
+        P_ = draw(st.integers(0, n)); M_ = draw(st.integers(0, n - P_)); Z_ = n - P_ - M_
+        s_ = draw(st.integers(0, Z_)); m_ = draw(st.integers(0, Z_ - s_))
+        pat = "0" * s_ + (("+" * P_ + "0" * m_ + "-" * M_) if draw(st.booleans()) else ("-" * M_ + "0" * m_ + "+" * P_)) + "0" * (Z_ - s_ - m_)
+        return {"seq": draw(gens.spelled(pat)), "warm": warm}
     return {"seq": draw(gens.sequences(max_len=40 if warm else max_len)), "warm": warm}
 
 
